@@ -27,7 +27,8 @@ META = {
              'ed through every URL spelling, contents that look like gzip '
              '/ zlib containers, absolute names inside sibling directories'
              " whose names extend the dataset's."
-             " Round 12: a name that is a path prefix of another stored name (file / directory conflicts modelled)."),
+             " Round 12: a name that is a path prefix of another stored name (file / directory conflicts modelled)."
+             " Round 17: one options dictionary object for all factory calls of a history."),
     "trusted_base": ["dict model", "Python gzip module", "os.walk snapshots"],
     "assumptions": ["one MIME type per name for the whole history (as every "
                     "caller does)", "names never end in .gz"],
@@ -123,7 +124,11 @@ class FileStore(RuleBasedStateMachine):
                 compresslevel=self.cfg["compresslevel"])
         url = {"plain": self.base, "file": "file://" + self.base,
                "precomputed_file": "precomputed://file://" + self.base}[via]
-        acc = accessor.get_accessor_for_url(url, dict(self.cfg))
+        # the program keeps ONE options dictionary (vars(args)) and passes it
+        # every time it opens the directory
+        if not hasattr(self, "shared_opts"):
+            self.shared_opts = dict(self.cfg)
+        acc = accessor.get_accessor_for_url(url, self.shared_opts)
         if not isinstance(acc, file_accessor.FileAccessor):
             self.fail("URL %r gave a %s" % (url, type(acc).__name__))
         self.ops.add("writer_via_factory")
